@@ -455,6 +455,11 @@ class OpaquePubKey(PubKey):  # pragma: no cover
     def __bytearray__(self):
         return self.data
 
+    def __copy__(self):
+        pk = super(OpaquePubKey, self).__copy__()
+        pk.data = self.data[:]
+        return pk
+
     def parse(self, packet):
         ##TODO: this needs to be length-bounded to the end of the packet
         self.data = packet
@@ -1310,6 +1315,13 @@ class PrivKey(PubKey):
 
 
 class OpaquePrivKey(PrivKey, OpaquePubKey):  # pragma: no cover
+    def __bytearray__(self):
+        # data holds everything after the algorithm octet, the string-to-key fields and the secret part included
+        return OpaquePubKey.__bytearray__(self)
+
+    def __len__(self):
+        return len(self.data)
+
     def __privkey__(self):
         return NotImplemented
 
